@@ -46,7 +46,7 @@ def fix_serials(items, start_serial):
 
 def edit_tables(rng, svcs, rules):
     """one of the edit kinds: add, remove, change in place (service protocol / rule field), replace everything, nothing"""
-    kind = rng.choice(['add', 'remove', 'inplace', 'inplace', 'rule-field', 'rule-add', 'rule-remove', 'replace', 'same', 'drop-section-content'])
+    kind = rng.choice(['add', 'remove', 'inplace', 'inplace', 'rule-field', 'rule-add', 'rule-remove', 'replace', 'same', 'drop-section-content', 'drop-section-content'])
     svcs = list(svcs); rules = [dict(r) for r in rules]
     pool = ['s0.x', 's1.x', 's2.x', 'S3.x', 'login.svc', 'drone.svc', 'Auth.Svc', 'z.y', 'n1.x', 'n2.x']
     if kind == 'add':
@@ -80,7 +80,7 @@ def run(chk):
     if env is None: return
     drv, impl = env
     rng = chk.rng
-    n = 60 if chk.tier == "quick" else 1500
+    n = 150 if chk.tier == "quick" else 3000
     cases = []
     for _ in range(n):
         svcs, rules = gen_tables(rng, dict(p_rules=0.8))
@@ -104,6 +104,7 @@ def run(chk):
         pr = probes(rng, stages[-1][0], stages[-1][1])
         reloaded = Scn(True, True, svcs, rules, 0, pre_items + [('R', s_, r_, 0) for s_, r_ in stages[1:]] + fix_serials(pr, sh.serial), "reloaded through %d stage(s)" % (len(stages) - 1))
         fresh = Scn(True, True, stages[-1][0], stages[-1][1], 0, fix_serials(pr, 0), "fresh daemon on the final file")
+        reloaded.omit_empty = fresh.omit_empty = rng.random() < 0.5      # an empty table may be written as an absent block
         cases.append((reloaded, fresh, len(pre_items) + len(stages) - 1))
     dr = run_daemons(impl, [c[0] for c in cases]); df = run_daemons(impl, [c[1] for c in cases])
     mr = run_model(drv, [c[0] for c in cases])
